@@ -31,6 +31,7 @@ type nCall struct {
 type nArg struct {
 	Lit  int64
 	Call *nCall
+	Name string // non-empty: written as a named argument
 }
 
 type nEvent struct {
@@ -58,16 +59,32 @@ func genNCall(r *rand.Rand, d int) *nCall {
 			c.Args = append(c.Args, nArg{Lit: int64(r.Intn(90) + 1)})
 		}
 	}
+	// g(a, b=7) may be called with named arguments (a trailing run of them):
+	// g(a = X), g(X, b = Y), g(a = X, b = Y) - the values are often calls
+	if c.Name == "g" && r.Intn(2) == 0 {
+		names := []string{"a", "b"}
+		from := r.Intn(len(c.Args))
+		for i := from; i < len(c.Args); i++ {
+			c.Args[i].Name = names[i]
+			if c.Args[i].Call == nil && d > 0 && r.Intn(2) == 0 {
+				c.Args[i].Call = genNCall(r, d-1)
+			}
+		}
+	}
 	return c
 }
 
 func (c *nCall) text() string {
 	var a []string
 	for _, x := range c.Args {
+		pre := ""
+		if x.Name != "" {
+			pre = x.Name + " = "
+		}
 		if x.Call != nil {
-			a = append(a, x.Call.text())
+			a = append(a, pre+x.Call.text())
 		} else {
-			a = append(a, fmt.Sprint(x.Lit))
+			a = append(a, pre+fmt.Sprint(x.Lit))
 		}
 	}
 	return c.Name + "(" + strings.Join(a, ", ") + ")"
